@@ -11,6 +11,15 @@ from .common import FIELD
 from .c01 import each, _single_return
 
 FLOOR = 17
+ANCHORS = [
+    'field.Field.grad',
+    'field.Field.div',
+    'field.Field.curl',
+    'field.Field.laplace',
+    'field.Field._r_dim_mapping',
+    'field.Field.vdims.setter',
+    'field.Field.vdim_mapping.setter',
+]   # functions whose code the property is anchored in (mutation analysis, evidence)
 
 
 def loop_guard(v, cond_text, exc, loop_iter_text, before, env_name=None):
